@@ -84,6 +84,10 @@ func NewKey(r *fw.Rand, typ string) *Key {
 func (k *Key) WithNonce(r *fw.Rand, n int) *Key {
 	c := *k
 	c.Nonce = oracle.B64(r.Bytes(n))
+	for n > 0 && c.Nonce == k.Nonce {
+		// one-byte nonces collide once in 256 draws: the copy is meant to be a different key
+		c.Nonce = oracle.B64(r.Bytes(n))
+	}
 	return &c
 }
 
@@ -175,7 +179,9 @@ func (k *Key) Sign(r *fw.Rand, msg []byte) []byte {
 	if k.Type == Ed25519 {
 		return ed25519.Sign(k.Ed, msg)
 	}
-	rr, ss, err := ecdsa.Sign(r, k.EC, hashFor(k.Type, msg))
+	// crypto/ecdsa deliberately reads zero or one byte more from its random source from call to call: it gets a stream of its own,
+	// seeded with one draw, so that the case's stream advances by the same amount in every run (replays reproduce the case)
+	rr, ss, err := ecdsa.Sign(fw.NewRand(r.U64()), k.EC, hashFor(k.Type, msg))
 	if err != nil {
 		panic("gen: ecdsa sign: " + err.Error())
 	}
